@@ -5,8 +5,8 @@
                 AddrText (C01), for every word size and count (so in particular at all EUI dialect rows) *)
 From Coq Require Import String Ascii.
 From NV Require Import Base.Tac Base.PyVal Base.Bits Base.PyStr Base.PyStrFacts Model.Ip.
-From NV Require Model.IpText Model.FbSocket Model.AddrText Model.NetText Model.Glob Model.Nmap Model.Conv Model.Codec Model.Eui.
-From NV Require Proofs.C01_Chars Proofs.C01_V4 Proofs.C01_Strict6 Proofs.C17_str Proofs.C15.
+From NV Require Model.IpText Model.FbSocket Model.AddrText Model.NetText Model.Glob Model.Nmap Model.Conv Model.Codec Model.Eui Model.AddrOps Model.Ieee Model.Subnet.
+From NV Require Proofs.C01_Chars Proofs.C01_V4 Proofs.C01_Strict6 Proofs.C17_str Proofs.C15 Proofs.C14 Proofs.C03 Proofs.C03_Str Proofs.C03_Total.
 Open Scope Z_scope.
 
 (* ================================================================ family 9: strict dotted quads *)
@@ -261,4 +261,277 @@ Proof.
   unfold Eui.eui_bits, Eui.default_dialect.
   destruct (Eui.ever e =? 64); cbn [Eui.word_size Eui.num_words Eui.word_sep Eui.eui64_base Eui.mac_eui48];
     rewrite coh_int_to_bits by lia; destruct sep; reflexivity.
+Qed.
+
+(* ================================================================ '%x' % n *)
+(* Python: the `%x` conversion (IPAddress.__hex__ in AddrOps (C14); the shared prelude PyStr.fmt_x everywhere else).
+   Every integer. *)
+Lemma eval16_from_digits ds : C14.eval16 ds = from_digits 16 ds.
+Proof.
+  unfold C14.eval16, from_digits. generalize 0. induction ds as [|d r IH]; intros a; cbn [fold_left]; [reflexivity|].
+  rewrite IH. f_equal. lia.
+Qed.
+Lemma hex_digit_char d : 0 <= d < 16 -> AddrOps.hex_digit d = digit_char d.
+Proof.
+  intros H.
+  assert (K: d = 0 \/ d = 1 \/ d = 2 \/ d = 3 \/ d = 4 \/ d = 5 \/ d = 6 \/ d = 7 \/ d = 8 \/ d = 9 \/
+             d = 10 \/ d = 11 \/ d = 12 \/ d = 13 \/ d = 14 \/ d = 15) by lia.
+  repeat (destruct K as [K|K]; [subst; reflexivity|]). subst; reflexivity.
+Qed.
+Lemma string_of_list_ascii_str_of l : string_of_list_ascii l = str_of l.
+Proof. induction l as [|c r IH]; cbn; congruence. Qed.
+Lemma hex_digits_fmt_nat v : 0 <= v ->
+  exists ds, AddrOps.hex_digits v = Some ds /\ string_of_list_ascii (map AddrOps.hex_digit ds) = str_of (fmt_nat 16 false v).
+Proof.
+  intros Hv. destruct (C14.hex_digits_spec v Hv) as (ds & E & A & B & C). exists ds. split; [exact E|].
+  rewrite string_of_list_ascii_str_of. f_equal. rewrite fmt_nat_eq.
+  assert (U : digits_of 16 v = ds).
+  { rewrite <- A, eval16_from_digits. apply digits_of_unique; [lia|exact B|].
+    destruct C as [[_ ->]|[_ (d & t & -> & Hd)]]; [left; reflexivity|].
+    right. exists d, t. split; [reflexivity|]. inversion B; subst. unfold C14.is_digit in *. lia. }
+  rewrite U. apply map_ext_in. intros d Hd. rewrite Forall_forall in B. apply hex_digit_char, B, Hd.
+Qed.
+Theorem coh_fmt_x v : AddrOps.fmt_x v = Ok (fmt_x v).
+Proof.
+  unfold AddrOps.fmt_x, fmt_x. case_ltb v 0.
+  - destruct (hex_digits_fmt_nat (- v) ltac:(lia)) as (ds & -> & ->). reflexivity.
+  - destruct (hex_digits_fmt_nat v ltac:(lia)) as (ds & -> & ->). reflexivity.
+Qed.
+
+(* ================================================================ parse_ip_network (str argument), IPv4 *)
+(* Python: parse_ip_network(_ipv4, "a/p") as reached from nmap._parse_nmap_target_spec: Nmap carries its own cut-down
+   copy (integer prefix only; everything it does not model is `Unsupported`), NetText the full one (C03).
+   Wherever the Nmap copy gives an answer at all, it is the answer of the full model, on both back-ends. *)
+Lemma ipaddress4_pton_exn s e : Nmap.ipaddress4_pton s = Raise e -> e = AddrFormatError.
+Proof. unfold Nmap.ipaddress4_pton. destruct (Glob.pton4 s); [discriminate|]. intros H. injection H as <-. reflexivity. Qed.
+
+Lemma coh_addr_part4 be a : contains_char "/" a = false ->
+  C03.addr_part be 4 a =
+  match Nmap.ipaddress4_pton a with
+  | Ok v => Ok v
+  | Raise AddrFormatError => do ex <- Nmap.expand_partial_address a; Nmap.ipaddress4_pton ex
+  | Raise e => Raise e
+  end.
+Proof.
+  intros NS. unfold C03.addr_part. rewrite (coh_ipaddress4_pton be a NS).
+  destruct (AddrText.init_str be a (Some 4) AddrText.INET_PTON) as [[x v]|e] eqn:I; cbn [omap snd]; [reflexivity|].
+  pose proof (coh_ipaddress4_pton be a NS) as E. rewrite I in E. cbn [omap] in E.
+  apply ipaddress4_pton_exn in E. subst e. change (4 =? 4) with true. cbv iota.
+  rewrite coh_expand_partial_address.
+  destruct (C03_Total.expand_total a) as [->|(ex & -> & NSe)]; cbn [bind]; [reflexivity|].
+  rewrite (coh_ipaddress4_pton be ex NSe).
+  destruct (AddrText.init_str be ex (Some 4) AddrText.INET_PTON) as [[x v]|e]; reflexivity.
+Qed.
+
+Theorem coh_nmap_parse_ip_network4 pton6 be addr :
+  Nmap.parse_ip_network pton6 4 addr <> Raise Unsupported ->
+  NetText.parse_str be 4 addr false = Nmap.parse_ip_network pton6 4 addr.
+Proof.
+  intros HU. unfold Nmap.parse_ip_network in *. change Nmap.ch_slash with "/"%char in *.
+  destruct (contains_char "/" addr) eqn:C.
+  - destruct (C03_Str.split1_two addr C) as (a & t & S & NS & ->). rewrite S in *.
+    rewrite C03.parse_str_slash by exact NS. rewrite (coh_addr_part4 be a NS).
+    change (4 =? 4) with true in *. cbv iota in *.
+    destruct (match Nmap.ipaddress4_pton a with
+              | Ok v => Ok v
+              | Raise AddrFormatError => do ex <- Nmap.expand_partial_address a; Nmap.ipaddress4_pton ex
+              | Raise e => Raise e end) as [value|e]; cbn [bind] in *; [|reflexivity].
+    unfold C03.prefix_part. destruct (py_int 10 t) as [n|]; [|congruence]. cbn [bind]. reflexivity.
+  - rewrite (split1_no_sep _ _ C) in HU. congruence.
+Qed.
+
+(* ================================================================ IAB.split_iab_mac (eui/__init__.py) *)
+(* Python: IAB.split_iab_mac(eui_int, strict=False)[0] — Ieee (C19: registry lookups) vs Eui (C08).  Every integer. *)
+Theorem coh_iab_value eui_int : Ieee.iab_value eui_int = omap fst (Eui.split_iab_mac eui_int false).
+Proof.
+  unfold Ieee.iab_value, Eui.split_iab_mac, Ieee.is_iab_eui, Eui.zmem, Eui.iab_values. cbn [existsb andb].
+  rewrite !orb_false_r, (Z.eqb_sym (Z.shiftr eui_int 12) 20674), (Z.eqb_sym (Z.shiftr eui_int 12) 4249685).
+  destruct ((20674 =? Z.shiftr eui_int 12) || (4249685 =? Z.shiftr eui_int 12)); [reflexivity|].
+  cbv zeta. rewrite (Z.eqb_sym (Z.shiftr (Z.shiftr eui_int 12) 12) 20674), (Z.eqb_sym (Z.shiftr (Z.shiftr eui_int 12) 12) 4249685).
+  destruct ((20674 =? _) || (4249685 =? _)); reflexivity.
+Qed.
+
+(* ================================================================ constructor calls on printed text *)
+(* Python: IPNetwork('%s/%d' % (addr, prefixlen), version) with addr a printed address of the family (IPNetwork.next /
+   previous / subnet: Subnet.net_of_cidr_str; IPNetwork.ipv4(): Conv.net_of_text_v4).  Subnet and Conv represent the
+   text by the value it prints and keep only the prefix check; NetText (C03) runs the real text through the real
+   parser.  Equal for every in-range value and EVERY integer prefix (also the rejected ones), both back-ends. *)
+Theorem coh_net_of_cidr_str be ver v p ip : valid_ver ver = true -> 0 <= v < 2 ^ width ver ->
+  (do a <- AddrText.int_to_str be ver v None;
+   NetText.net_init be (NetText.AStr (a ++ "/" ++ fmt_d p)) ip (Some ver) 0) =
+  omap (fun c => {| nver := ver; nval := fst c; nplen := snd c |}) (Subnet.net_of_cidr_str (width ver) v p).
+Proof.
+  intros Hver Hv. assert (R : C03.vrange ver v) by (split; assumption).
+  unfold Subnet.net_of_cidr_str.
+  destruct (Z_le_dec 0 p) as [L0|L0]; [destruct (Z_le_dec p (width ver)) as [L1|L1]|].
+  - replace ((0 <=? p) && (p <=? width ver)) with true by lia. cbn [negb omap fst snd].
+    rewrite (C03.notations_prefix be ver v p ip (Some ver) 0 R (conj L0 L1) (or_introl eq_refl)). reflexivity.
+  - replace ((0 <=? p) && (p <=? width ver)) with false by lia. cbn [negb omap].
+    destruct (C03.printed_exists be ver v R) as (a & P). rewrite (C03.pr_text _ _ _ _ P). cbn [bind].
+    apply (C03.notation_reject be ver v a (fmt_d p) ip (Some ver) 0 R P (or_introl eq_refl)).
+    right. exists p. split; [apply C03.prefix_part_int, py_int_fmt_d|lia].
+  - replace ((0 <=? p) && (p <=? width ver)) with false by lia. cbn [negb omap].
+    destruct (C03.printed_exists be ver v R) as (a & P). rewrite (C03.pr_text _ _ _ _ P). cbn [bind].
+    apply (C03.notation_reject be ver v a (fmt_d p) ip (Some ver) 0 R P (or_introl eq_refl)).
+    right. exists p. split; [apply C03.prefix_part_int, py_int_fmt_d|lia].
+Qed.
+
+Theorem coh_net_of_text_v4 be v p ip : 0 <= v < 2 ^ 32 ->
+  (do a <- AddrText.int_to_str be 4 v None;
+   NetText.net_init be (NetText.AStr (a ++ "/" ++ fmt_d p)) ip None 0) = Conv.net_of_text_v4 v p.
+Proof.
+  intros Hv. assert (R : C03.vrange 4 v) by (split; [reflexivity|exact Hv]).
+  unfold Conv.net_of_text_v4.
+  destruct (Z_le_dec 0 p) as [L0|L0]; [destruct (Z_le_dec p (width 4)) as [L1|L1]|].
+  - replace ((0 <=? p) && (p <=? width 4)) with true by lia.
+    rewrite (C03.notations_prefix be 4 v p ip None 0 R (conj L0 L1) (or_intror eq_refl)). reflexivity.
+  - replace ((0 <=? p) && (p <=? width 4)) with false by lia.
+    destruct (C03.printed_exists be 4 v R) as (a & P). rewrite (C03.pr_text _ _ _ _ P). cbn [bind].
+    apply (C03.notation_reject be 4 v a (fmt_d p) ip None 0 R P (or_intror eq_refl)).
+    right. exists p. split; [apply C03.prefix_part_int, py_int_fmt_d|lia].
+  - replace ((0 <=? p) && (p <=? width 4)) with false by lia.
+    destruct (C03.printed_exists be 4 v R) as (a & P). rewrite (C03.pr_text _ _ _ _ P). cbn [bind].
+    apply (C03.notation_reject be 4 v a (fmt_d p) ip None 0 R P (or_intror eq_refl)).
+    right. exists p. split; [apply C03.prefix_part_int, py_int_fmt_d|lia].
+Qed.
+
+(* ================================================================ family 10, packed *)
+(* Python: EUI.packed (eui/__init__.py) = strategy/eui48.int_to_packed / strategy/eui64.int_to_packed: Eui (C08, bytes
+   as a latin-1 string) vs Codec (C15, bytes as integers).  Every EUI object, in or out of range (no hypothesis). *)
+Lemma eui_be_bytes_snoc k : forall n,
+  Eui.be_bytes (S k) n = (Eui.be_bytes k (n / 256) ++ [chr (Z.land n 255)])%list.
+Proof.
+  induction k as [|k IH]; intros n.
+  - cbn [Eui.be_bytes app]. change (8 * Z.of_nat 0) with 0. rewrite Z.shiftr_0_r. reflexivity.
+  - change (Eui.be_bytes (S (S k)) n) with (chr (Z.land (Z.shiftr n (8 * Z.of_nat (S k))) 255) :: Eui.be_bytes (S k) n).
+    rewrite IH. change (Eui.be_bytes (S k) (n / 256)) with (chr (Z.land (Z.shiftr (n / 256) (8 * Z.of_nat k)) 255) :: Eui.be_bytes k (n / 256)).
+    cbn [app]. f_equal. f_equal. f_equal.
+    change 256 with (2 ^ 8). rewrite <- Z.shiftr_div_pow2, Z.shiftr_shiftr by lia. f_equal. lia.
+Qed.
+Lemma coh_be_bytes k : forall n, map chr (Codec.be_bytes k n) = Eui.be_bytes k n.
+Proof.
+  induction k as [|k IH]; intros n; [reflexivity|].
+  rewrite eui_be_bytes_snoc. cbn [Codec.be_bytes]. rewrite map_app, IH. cbn [map]. f_equal. f_equal. f_equal.
+  change 255 with (Z.ones 8). rewrite Z.land_ones by lia. reflexivity.
+Qed.
+
+Lemma words_loop_length n : forall v mw ws, List.length (Codec.words_loop n v mw ws) = n.
+Proof. induction n as [|k IH]; intros; cbn [Codec.words_loop List.length]; [reflexivity|]. rewrite IH. reflexivity. Qed.
+
+Lemma int_to_words_shape v ws nw l : 0 <= ws -> Codec.int_to_words v ws nw = Ok l ->
+  Forall (fun w => 0 <= w < 2 ^ ws) l /\ List.length l = Z.to_nat nw.
+Proof.
+  intros Hws W. unfold Codec.int_to_words in W. destruct (negb _); [discriminate|].
+  assert (E : rev (Codec.words_loop (Z.to_nat nw) v (2 ^ ws - 1) ws) = l) by (injection W as W; exact W).
+  subst l. split; [apply Forall_rev, words_loop_range; exact Hws|].
+  rewrite rev_length, words_loop_length. reflexivity.
+Qed.
+
+Theorem coh_eui_packed e dflt : Codec.d_ws dflt = 8 -> Codec.d_nw dflt = 8 ->
+  Eui.eui_packed e =
+  omap Codec.str_of_bytes
+    (if Eui.ever e =? 64 then Codec.eui64_int_to_packed dflt (Eui.evalue e) else Codec.eui48_int_to_packed (Eui.evalue e)).
+Proof.
+  intros E1 E2. unfold Eui.eui_packed. destruct (Eui.ever e =? 64) eqn:Ev.
+  - unfold Eui.eui_words, Eui.default_dialect, Codec.eui64_int_to_packed. rewrite Ev, E1, E2.
+    cbn [Eui.word_size Eui.num_words Eui.eui64_base]. rewrite coh_int_to_words by lia.
+    destruct (Codec.int_to_words (Eui.evalue e) 8 8) as [ws|ex] eqn:W; cbn [bind omap]; [|reflexivity].
+    assert (F : Forall (fun w => 0 <= w < 2 ^ 8) ws /\ List.length ws = Z.to_nat 8)
+      by (apply (int_to_words_shape _ 8 8 ws ltac:(lia) W)).
+    destruct F as [F L]. change (Z.to_nat 8) with 8%nat in L.
+    destruct ws as [|w1 [|w2 [|w3 [|w4 [|w5 [|w6 [|w7 [|w8 [|w9 r]]]]]]]]]; try discriminate L.
+    repeat match goal with X : Forall _ (_ :: _) |- _ => inversion X; clear X; subst end.
+    change (2 ^ 8) with 256 in *.
+    cbn [List.length Nat.eqb forallb andb Codec.struct_pack]. change (256 ^ Z.of_nat 1) with 256.
+    repeat match goal with
+           | H : 0 <= ?w < 256 |- context [(0 <=? ?w) && (?w <=? 255)] => replace ((0 <=? w) && (w <=? 255)) with true by lia
+           end.
+    repeat match goal with
+           | H : 0 <= ?w < 256 |- context [(0 <=? ?w) && (?w <? 256)] => replace ((0 <=? w) && (w <? 256)) with true by lia
+           end.
+    cbn [andb bind omap Codec.be_bytes app]. unfold Codec.str_of_bytes. cbn [map].
+    repeat match goal with
+           | H : 0 <= ?w < 256 |- context [?w mod 256] => rewrite (Z.mod_small w 256) by lia
+           end.
+    reflexivity.
+  - unfold Codec.eui48_int_to_packed. cbn [Codec.struct_pack].
+    set (hi := Z.shiftr (Eui.evalue e) 32). set (lo := Z.land (Eui.evalue e) 4294967295).
+    assert (Hlo : 0 <= lo < 256 ^ Z.of_nat 4).
+    { unfold lo. change 4294967295 with (Z.ones 32). rewrite Z.land_ones by lia.
+      change (256 ^ Z.of_nat 4) with (2 ^ 32). apply Z.mod_pos_bound. lia. }
+    replace ((0 <=? lo) && (lo <? 256 ^ Z.of_nat 4)) with true by lia.
+    change (256 ^ Z.of_nat 2) with 65536.
+    replace (hi <? 65536) with (hi <=? 65535) by lia.
+    destruct ((0 <=? hi) && (hi <=? 65535)); cbn [bind omap]; [|reflexivity].
+    unfold Codec.str_of_bytes. rewrite app_nil_r, map_app, !coh_be_bytes. reflexivity.
+Qed.
+
+(* ================================================================ strategy/ipv6.int_to_packed / int_to_str (verbose) *)
+(* Python: strategy/ipv6.int_to_packed — AddrText (C01) keeps the 16 bytes as eight 16-bit words, Codec (C15) as 16
+   bytes which its verbose printer unpacks with '>8H'.  Same eight words, same exceptions, every integer. *)
+Lemma pair16 a : 0 <= a < 4294967296 ->
+  ((0 * 256 + a / 256 / 256 / 256 mod 256) * 256 + a / 256 / 256 mod 256 = a / 65536) /\
+  ((0 * 256 + a / 256 mod 256) * 256 + a mod 256 = a mod 65536).
+Proof. intros H. split; lia_dm. Qed.
+
+Theorem coh_ipv6_int_to_packed v :
+  (do packed <- Codec.ipv6_int_to_packed v;
+   Codec.struct_unpack [2%nat; 2%nat; 2%nat; 2%nat; 2%nat; 2%nat; 2%nat; 2%nat] packed) = AddrText.int_to_packed v.
+Proof.
+  unfold Codec.ipv6_int_to_packed, AddrText.int_to_packed. rewrite (coh_int_to_words_addrtext v 32 4).
+  change (Z.of_nat 4) with 4.
+  destruct (Codec.int_to_words v 32 4) as [ws|ex] eqn:W; cbn [bind]; [|reflexivity].
+  destruct (int_to_words_shape _ 32 4 ws ltac:(lia) W) as [F L]. change (Z.to_nat 4) with 4%nat in L.
+  destruct ws as [|a [|b [|c [|d [|x r]]]]]; try discriminate L.
+  repeat match goal with X : Forall _ (_ :: _) |- _ => inversion X; clear X; subst end.
+  change (2 ^ 32) with 4294967296 in *.
+  unfold AddrText.pack_4I. cbn [forallb]. cbn [Codec.struct_pack]. change (256 ^ Z.of_nat 4) with 4294967296.
+  repeat match goal with
+         | H : 0 <= ?w < 4294967296 |- context [(0 <=? ?w) && (?w <=? 4294967295)] =>
+             replace ((0 <=? w) && (w <=? 4294967295)) with true by lia
+         end.
+  repeat match goal with
+         | H : 0 <= ?w < 4294967296 |- context [(0 <=? ?w) && (?w <? 4294967296)] =>
+             replace ((0 <=? w) && (w <? 4294967296)) with true by lia
+         end.
+  cbn [andb bind Codec.be_bytes app]. unfold Codec.struct_unpack.
+  cbn [List.length fold_right Nat.add Nat.eqb Codec.split_fields firstn skipn Codec.from_be].
+  repeat match goal with
+         | H : 0 <= ?w < 4294967296 |- _ => destruct (pair16 w H) as [-> ->]; clear H
+         end.
+  reflexivity.
+Qed.
+
+(* Python: strategy/ipv6.int_to_str(int_val, ipv6_verbose) (used by int_to_arpa): the C15 copy and the C01 function *)
+Theorem coh_ipv6_int_to_str_verbose be d v : Codec.d_sep d = ":"%string ->
+  Codec.ipv6_int_to_str_verbose d v = AddrText.v6_int_to_str be v (Some AddrText.ipv6_verbose).
+Proof.
+  intros Es. unfold Codec.ipv6_int_to_str_verbose, AddrText.v6_int_to_str.
+  cbn [AddrText.compact AddrText.pad4 AddrText.ipv6_verbose]. rewrite <- coh_ipv6_int_to_packed, Es.
+  destruct (Codec.ipv6_int_to_packed v) as [p|ex]; cbn [bind Codec.on_exception]; [|reflexivity].
+  destruct (Codec.struct_unpack _ p); reflexivity.
+Qed.
+
+(* Python: the loop `for i, num in enumerate(reversed(words)): int_val |= num << word_size * i` (strategy.words_to_int,
+   ipv6.packed_to_int, fbsocket.inet_ntop) is written three times: one function *)
+Lemma coh_or_words bits rw : forall i acc,
+  FbSocket.Fb.or_words bits rw i acc = Codec.lor_words rw i bits acc /\
+  Codec.lor_words rw i bits acc = Eui.w2i_loop rw i bits acc.
+Proof.
+  induction rw as [|w r IH]; intros i acc; cbn [FbSocket.Fb.or_words Codec.lor_words Eui.w2i_loop]; [split; reflexivity|].
+  apply IH.
+Qed.
+
+(* Python: strategy/ipv6.packed_to_int — Codec (16 bytes, '>4I') vs AddrText (eight 16-bit words).  Every byte list
+   (wrong lengths raise struct.error on both sides). *)
+Theorem coh_ipv6_packed_to_int b :
+  Codec.ipv6_packed_to_int b =
+  (do ws <- Codec.struct_unpack [2%nat; 2%nat; 2%nat; 2%nat; 2%nat; 2%nat; 2%nat; 2%nat] b; AddrText.packed_to_int ws).
+Proof.
+  do 16 (destruct b as [|? b]; [reflexivity|]). destruct b; [|reflexivity].
+  unfold Codec.ipv6_packed_to_int, Codec.struct_unpack.
+  cbn [List.length fold_right Nat.add Nat.eqb Codec.split_fields firstn skipn Codec.from_be bind
+       AddrText.packed_to_int AddrText.unpack_4I].
+  rewrite (proj1 (coh_or_words 32 _ 0 0)). do 2 f_equal.
+  repeat (f_equal; try lia).
 Qed.
